@@ -194,7 +194,7 @@ fn judge_de(r: &Report, carrier: &str, t: &Type, rel: Rel, res: &Result<Result<(
 
 /// Returns true if the cell was an Accept cell that was accepted (serialization side).
 fn matrix_cell_static(r: &Report, e: &Entry, t: &Type, ct: &ColumnType<'static>, st: &MatrixStats) -> bool {
-    let case = || json!({"leg": "matrix", "carrier": e.name, "type": t.to_string()});
+    let case = || json!({"leg": "matrix", "carrier": e.name, "type": t.to_string(), "frozen": frozen_mode()});
     let rel = (e.rel_ser)(t);
     let p = (e.probe_ser)(t, ct);
     r.eval(1);
@@ -212,7 +212,7 @@ fn matrix_cell_dyn(r: &Report, vt: &Type, name: &str, w: &CqlValue, t: &Type, ct
     let rel = dyn_rel(vt, t);
     let p = probe_value(w, ct);
     r.eval(1);
-    judge_ser(r, name, t, rel, &p, st, &|| json!({"leg": "matrix", "dyn_value_type": vt.to_string(), "type": t.to_string()}));
+    judge_ser(r, name, t, rel, &p, st, &|| json!({"leg": "matrix", "dyn_value_type": vt.to_string(), "type": t.to_string(), "frozen": frozen_mode()}));
 }
 
 pub fn run_matrix(r: &Report) {
@@ -259,16 +259,37 @@ pub fn run_matrix(r: &Report) {
         .collect();
     let st = MatrixStats { cells: Default::default(), de_cells: Default::default() };
     let n_types = AtomicU64::new(0);
+    let n_variants = AtomicU64::new(0);
     let do_type = |t: &Type| {
         n_types.fetch_add(1, Ordering::Relaxed);
-        let ct = column_type(t);
-        for (i, e) in entries.iter().enumerate() {
-            if matrix_cell_static(r, e, t, &ct, &st) {
-                accept_per_entry[i].fetch_add(1, Ordering::Relaxed);
-            }
-        }
-        for (vt, w, name) in &dyn_vts {
-            matrix_cell_dyn(r, vt, name, w, t, &ct, &st);
+        // the frozen flag of collections/UDTs must not matter: full matrix with nothing frozen and with everything
+        // frozen; the nested-only-frozen variant (what servers report) for the cells the relation calls Accept
+        for mode in frozen_modes_for(t) {
+            with_frozen(mode, || {
+                let ct = column_type(t);
+                n_variants.fetch_add(1, Ordering::Relaxed);
+                for (i, e) in entries.iter().enumerate() {
+                    if mode == 2 && (e.rel_ser)(t) != Rel::Accept && e.rel_de.map(|f| f(t)) != Some(Rel::Accept) {
+                        continue;
+                    }
+                    // quick tier: the all-frozen variant of depth-2 column types only for cells the relation does not call Reject
+                    if mode == 1 && !thorough && t.depth() >= 2 && (e.rel_ser)(t) == Rel::Reject && e.rel_de.map(|f| f(t)) != Some(Rel::Accept) {
+                        continue;
+                    }
+                    if matrix_cell_static(r, e, t, &ct, &st) {
+                        accept_per_entry[i].fetch_add(1, Ordering::Relaxed);
+                    }
+                }
+                for (vt, w, name) in &dyn_vts {
+                    if mode == 2 && dyn_rel(vt, t) != Rel::Accept {
+                        continue;
+                    }
+                    if mode == 1 && !thorough && t.depth() >= 2 && dyn_rel(vt, t) == Rel::Reject {
+                        continue;
+                    }
+                    matrix_cell_dyn(r, vt, name, w, t, &ct, &st);
+                }
+            });
         }
     };
     vcore::par::for_each(r.args.jobs, 1, work.into_iter(), |w| match w {
@@ -296,7 +317,8 @@ pub fn run_matrix(r: &Report) {
     r.counters.add("carriers_static", entries.len() as u64);
     r.counters.add("carriers_dynamic_shapes", dyn_vts.len() as u64);
     r.counters.add("column_types", n_types.load(Ordering::Relaxed));
-    r.set_rule("E-ENUM full matrix. Rows: every static carrier of the C01 table (795: 31 owned bases x wrappers, borrowed carriers, secrecy, CqlValue inside static wrappers) and the dynamic value type shaped as each of ~110 value types. Columns: 20 natives, all depth-1 types (list/set/vector/map/tuple/UDT over all natives), depth-2 types (quick: constructors over the depth-1 types of int/text/blob/boolean + every carrier's documented depth-2 types; thorough: over every depth-1 type). Each cell: serialize a witness with content at every level after one bound value + (static carriers) deserialize type_check, judged against the three-valued relation Accept (documented pair) / Reject (wire shapes differ) / DontCare. distinct_nontrivial = cells decided by the relation (Accept accepted + Reject refused), ser and de.");
+    r.counters.add("column_type_frozen_variants", n_variants.load(Ordering::Relaxed));
+    r.set_rule("E-ENUM full matrix. Rows: every static carrier of the C01 table (795: 31 owned bases x wrappers, borrowed carriers, secrecy, CqlValue inside static wrappers) and the dynamic value type shaped as each of ~110 value types. Columns: 20 natives, all depth-1 types (list/set/vector/map/tuple/UDT over all natives), depth-2 types (quick: constructors over the depth-1 types of int/text/blob/boolean + every carrier's documented depth-2 types; thorough: over every depth-1 type). Every column type is used with its collections/UDTs non-frozen and all frozen (full rows; in quick the all-frozen variant of depth-2 types is limited to cells the relation does not call Reject), and nested-only frozen (Accept cells): the relation does not depend on the flag. Each cell: serialize a witness with content at every level after one bound value + (static carriers) deserialize type_check, judged against the three-valued relation Accept (documented pair) / Reject (wire shapes differ) / DontCare. distinct_nontrivial = cells decided by the relation (Accept accepted + Reject refused), ser and de.");
     r.set_exhaustive(true);
     r.assume("Accept = pairs listed in docs/source/data-types (nested structurally, incl. Box/Arc/Cow/Option/MaybeUnset/MaybeEmpty/secrecy wrappers); Reject = different native type (ascii/text interchangeable), sequence vs map vs tuple vs UDT vs vector, vector dimension mismatch, Rust tuple longer than the CQL tuple, UDT of another name or with a field the column type lacks, or any component pair that is Reject; everything else (set-like carrier on a list column, shorter Rust tuple, zero-dimensional vectors, list value on a 1-dimensional vector...) is DontCare");
     r.assume("witness values are non-null and non-empty at every level: null / empty collections carry no element bytes and are accepted for any element type (not a mismatch on the wire)");
@@ -437,6 +459,16 @@ fn failure_kinds() -> Vec<(&'static str, &'static str, FailFn)> {
         k("map-2nd-key", "typecheck", |sv| sv.add_value(&CqlValue::Map(vec![(CqlValue::Int(1), CqlValue::Int(1)), (CqlValue::Text("k".into()), CqlValue::Int(2))]), &ct("map<int,int>"))),
         k("vector-fixed-2nd-element", "typecheck", |sv| sv.add_value(&vec![CqlValue::Int(1), CqlValue::Text("x".into())], &ct("vector<int,2>"))),
         k("vector-variable-2nd-element", "typecheck", |sv| sv.add_value(&vec![CqlValue::Text("x".into()), CqlValue::Int(1)], &ct("vector<text,2>"))),
+        k("vector-length+65536:Vec<f32>->vector<float,2>", "vector-dimension", |sv| sv.add_value(&vec![1.5f32; 2 + 65536], &ct("vector<float,2>"))),
+        k("vector-length+131072:Vec<i32>->vector<int,3>", "vector-dimension", |sv| sv.add_value(&vec![7i32; 3 + 131072], &ct("vector<int,3>"))),
+        k("vector-length-65536:Vec<i64>->vector<bigint,0>", "vector-dimension", |sv| sv.add_value(&vec![7i64; 65536], &ct("vector<bigint,0>"))),
+        k("vector-length+65536:[String]->vector<text,1>", "vector-dimension", |sv| sv.add_value(&crate::carriers::SliceOf(vec!["ab".to_string(); 1 + 65536]), &ct("vector<text,1>"))),
+        k("vector-length-65536:Vec<Vec<u8>>->vector<blob,0>", "vector-dimension", |sv| sv.add_value(&vec![vec![1u8]; 65536], &ct("vector<blob,0>"))),
+        k("vector-length+65536:CqlValue::Vector->vector<int,2>", "vector-dimension", |sv| sv.add_value(&CqlValue::Vector(vec![CqlValue::Int(1); 2 + 65536]), &ct("vector<int,2>"))),
+        k("vector-length+131072:CqlValue::Vector->vector<varint,1>", "vector-dimension", |sv| {
+            sv.add_value(&CqlValue::Vector(vec![CqlValue::Varint(scylla_cql_core::value::CqlVarint::from_signed_bytes_be(vec![1])); 1 + 131072]), &ct("vector<varint,1>"))
+        }),
+        k("vector-length+65536:nested-in-list-2nd", "vector-dimension", |sv| sv.add_value(&vec![vec![1i32, 2], vec![1i32; 2 + 65536]], &ct("list<vector<int,2>>"))),
         k("vector-wrong-dimension", "vector-dimension", |sv| sv.add_value(&vec![1i32, 2, 3], &ct("vector<int,2>"))),
         k("tuple-too-long:CqlValue", "typecheck", |sv| sv.add_value(&CqlValue::Tuple(vec![Some(CqlValue::Int(1)), Some(CqlValue::Int(2)), Some(CqlValue::Int(3))]), &ct("tuple<int,int>"))),
         k("tuple-too-long:rust-tuple", "typecheck", |sv| sv.add_value(&(1i32, 2i32, 3i32), &ct("tuple<int,int>"))),
@@ -640,7 +672,7 @@ pub fn run_rollback(r: &Report) {
         }
     }
     check_too_many(r);
-    r.set_rule("E-ENUM rollback. Every sequence of 0..3 (thorough: 0..4) good values over {int, text, list<int>, null, not-set, empty blob} (259 / 1555 prefixes) x every failure kind (38: wrong native type x8 incl. through &T, Box, MaybeUnset, SecretBox; three-level nesting list<tuple<int,udt>>; a map's 2nd value whose list's 2nd element fails; typed BTreeMap's last value; inner vector dimension; set bound to a map column; 2nd element/key/value/field failing in list, set, list<list>, map, fixed and variable vector, tuple, UDT, list<UDT>; wrong vector dimension; tuple too long x2; unknown UDT field; UDT name mismatch; empty into non-emptiable x2; value overflow x3; simulated size overflow after 0 / 33+nested bytes, inside list and tuple): the list is bytewise, count-wise and cell-wise identical after the failed add, the error has the expected root cause, and a following good value lands as the reference encodes it; every ordered pair of failures in a row; the 65536th value (good or failing) on a full list. distinct_nontrivial = cases where the failure happened, state was verified intact and the next value verified.");
+    r.set_rule("E-ENUM rollback. Every sequence of 0..3 (thorough: 0..4) good values over {int, text, list<int>, null, not-set, empty blob} (259 / 1555 prefixes) x every failure kind (46: wrong native type x8 incl. through &T, Box, MaybeUnset, SecretBox; three-level nesting list<tuple<int,udt>>; a map's 2nd value whose list's 2nd element fails; typed BTreeMap's last value; inner vector dimension; set bound to a map column; sequences of length N+65536 / N+131072 / 65536 for N=0 bound to vector<T,N> (fixed and variable width; Vec, [T], CqlValue::Vector, nested); 2nd element/key/value/field failing in list, set, list<list>, map, fixed and variable vector, tuple, UDT, list<UDT>; wrong vector dimension; tuple too long x2; unknown UDT field; UDT name mismatch; empty into non-emptiable x2; value overflow x3; simulated size overflow after 0 / 33+nested bytes, inside list and tuple): the list is bytewise, count-wise and cell-wise identical after the failed add, the error has the expected root cause, and a following good value lands as the reference encodes it; every ordered pair of failures in a row; the 65536th value (good or failing) on a full list. distinct_nontrivial = cases where the failure happened, state was verified intact and the next value verified.");
     r.set_exhaustive(true);
     r.assume("a > 2 GiB value cannot be materialised; the size-overflow path is simulated by a SerializeValue impl that appends bytes (directly and through nested sub-writers) and then returns an error");
     r.sample(json!({"prefix": ["int 1", "list<int> [1,2]"], "failing": "vector-variable-2nd-element", "then": "int 0x11223344"}));
@@ -1107,7 +1139,8 @@ pub fn replay(r: &Report, case: &serde_json::Value) {
     match case["leg"].as_str() {
         Some("matrix") => {
             let t = refv::parse_type(case["type"].as_str().unwrap_or("")).unwrap_or_else(|e| vcore::machinery_error(&format!("replay: bad type {e}")));
-            let ct = column_type(&t);
+            let mode = case["frozen"].as_u64().unwrap_or(0) as u8;
+            let ct = with_frozen(mode, || column_type(&t));
             let st = MatrixStats { cells: Default::default(), de_cells: Default::default() };
             if let Some(vt) = case["dyn_value_type"].as_str() {
                 let vt = refv::parse_type(vt).unwrap_or_else(|e| vcore::machinery_error(&format!("replay: bad value type {e}")));
